@@ -362,7 +362,7 @@ def spec_records(chk, inputs, ground, name='on'):
     cfg = os.path.join(wd, 'On.cfg')
     invs = ['CountFormula', 'ObjectOrder', 'SegJoint', 'JoinedIffSamePoint', 'JunctionCount',
             'OwnerIsLaterTag', 'TagOrder', 'AddrFormsAgree', 'AllOnce', 'KCL', 'FreeEndZero',
-            'JunctionEndIsSum']
+            'JunctionEndIsSum', 'ConnectedOnlyIfJoined']
     open(cfg, 'w').write(
         'CONSTANTS NObjMax = 99\n MaxSeg = 999\n NFree = %d\n NGnd = %d\n HasGround = %s\n MaxTag = 99\n MaxCurves = 99\n'
         'INIT InitOn\nNEXT NextOn\n%s\nINVARIANT DumpOn\nINVARIANT RejectOn\nCHECK_DEADLOCK FALSE\n'
